@@ -94,6 +94,38 @@ def listsEqual (v1 v2 : List α) : Bool :=
   if v1.length ≠ v2.length then false
   else (List.range v1.length).all (fun i => decide (v1[i]? = v2[i]?))
 
+/-- `Lists_Equal` as coded for an element type whose `!=` is not Leibniz disequality: the loop
+    `if(v1[i] != v2[i]) return false` with `a != b` ≡ `!(a == b)` for the element's own `==`
+    (`eq`).  The nested overload is `listsEqualBy (listsEqualBy eq)`. -/
+def listsEqualBy {β : Type} (eq : β → β → Bool) (v1 v2 : List β) : Bool :=
+  if v1.length ≠ v2.length then false
+  else (List.range v1.length).all (fun i =>
+    match v1[i]?, v2[i]? with
+    | some a, some b => eq a b
+    | _, _ => true)
+
+/-- A `double` as `operator==` sees it: a finite value is the rational it denotes (so `-0.0` and
+    `+0.0` are the same element), the two infinities, and NaN. -/
+inductive Dbl where
+  | fin (r : Rat)
+  | pinf
+  | ninf
+  | nan
+  deriving DecidableEq, Repr
+
+/-- IEEE `==`: NaN compares unequal to everything, itself included. -/
+def Dbl.eqv : Dbl → Dbl → Bool
+  | .fin a, .fin b => decide (a = b)
+  | .pinf, .pinf => true
+  | .ninf, .ninf => true
+  | _, _ => false
+
+/-- `Lists_Equal(const std::vector<double>&, …)` -/
+def listsEqualD (v1 v2 : List Dbl) : Bool := listsEqualBy Dbl.eqv v1 v2
+
+/-- `Lists_Equal(const std::vector<std::vector<double>>&, …)`: forwards to the flat overload row by row -/
+def listsEqualDD (v1 v2 : List (List Dbl)) : Bool := listsEqualBy listsEqualD v1 v2
+
 def combine (v1 v2 : List α) : List α := v1 ++ v2
 
 /-- `Transpose_Lists`: `lists[0].size()` columns; ragged input → diagnostic.
